@@ -268,7 +268,16 @@ func (w *world) authVariant(g *genTx, which int) ([]byte, string) {
 		lib.Unmarshal(bz, x)
 		return x
 	}
-	attacker := w.pickActor(func(a *actor) bool { return !a.isVal && a != g.from && a.kind != "bls" })
+	// the attacker is a funded stranger: it is no sender, recipient, output address or seller anywhere
+	var attacker *actor
+	for _, a := range w.actors {
+		if a.stranger && (attacker == nil || t.Chance(1, 2)) {
+			attacker = a
+		}
+	}
+	if attacker == nil {
+		return nil, ""
+	}
 	x := clone()
 	kind := ""
 	switch which {
